@@ -274,10 +274,13 @@ func (t *Thread) end(args []Value, err error, exception interface{}) {
 	t.caller = nil
 	err = t.cleanupCloseStack(nil, 0, err) // TODO: not nil
 	t.closeErr = err
+	// Release the goroutine's stack before handing control back to the caller:
+	// once the caller runs, this goroutine must not touch the runtime any more
+	// (the caller may already have left the context the memory was charged to).
+	t.ReleaseBytes(2 << 10) // The goroutine will terminate after this
 	verifHandoff("end.before-send", t, caller)
 	caller.sendResumeValues(args, err, exception)
 	verifHandoff("end.after-send", t, nil)
-	t.ReleaseBytes(2 << 10) // The goroutine will terminate after this
 }
 
 func (t *Thread) call(c Callable, args []Value, next Cont) error {
